@@ -404,8 +404,9 @@ Section Guards.
       [FatResponse::cache]: server Full, client Full *)
   Definition err_pst (code : N) (spref : N) : pst := mkP code err_headers (errpage code) spref CFull false.
   Definition file_pst (c : bytes) : pst := mkP 200 [] c SP_FULL CFull false.
-  (** the answer of the Prepare extension that [Extensions::new] binds to "/./cors_fail" *)
-  Definition cors_pst : pst := mkP 403 [] (B "CORS request denied") SP_FULL CFull false.
+  (** the answer of the Prepare extension that [Extensions::new] binds to "/./cors_fail" (server cache
+      preference None since kvarn d00feae) *)
+  Definition cors_pst : pst := mkP 403 [] (B "CORS request denied") SP_NONE CFull false.
 
   (** the decoded path a file is read from ([get_response]) *)
   Definition served_file (raw : bytes) : outcome (option bytes) :=
